@@ -18,3 +18,5 @@ def run(chk):
     res = vlib.run_tlc("MC_C01", cfg_text=cfg, timeout=3000, heap="16g")
     chk.add_tlc(res, "MC_C01 (DiffTouch)")
     dt.replay(chk, res.cases, "C02", cli_sample=200 if quick else 2000)
+    from props import diff_long
+    diff_long.run(chk, n=25 if quick else 250)
